@@ -141,7 +141,11 @@ fn exec_hash_inner(op: &Value) -> Value {
         "xmd" | "xof" => {
             let msg = j_to_bytes(&op["msg"]);
             let dst = j_to_bytes(&op["dst"]);
-            let len = op["len"].as_u64().unwrap() as usize;
+            // lengths beyond 32 bits are logged as limb arrays ("lenbig")
+            let len = match op.get("lenbig") {
+                Some(v) => nat_to_words(v, 1).expect("length does not fit usize")[0] as usize,
+                None => op["len"].as_u64().unwrap() as usize,
+            };
             json!({ "bytes": bytes_to_j(&expand(x, &msg, &dst, len)) })
         }
         "h2f" => {
